@@ -376,8 +376,14 @@ fn trait_views(rep: &mut Report, r: &mut Rng, budget: u64, level: u32) {
     let n = if level == 0 { budget.min(200) } else { budget };
     for _ in 0..n {
         let m = gen_msg(r, &cfg);
-        let p = msg_to_packet(&m);
-        let wit = m.describe();
+        // half of the packets are assembled through a randomised call order that leaves cleared
+        // (empty) option entries and replaced lists behind; raw state is the same message either way
+        let (p, how) = if r.bool() { (msg_to_packet(&m), String::from("plain adds")) } else { crate::codec::build_packet(&m, r) };
+        if packet_to_msg(&p) != m {
+            rep.violation("api-readback", "getters differ from what was set".into(), format!("{} | {}", m.describe(), how));
+            continue;
+        }
+        let wit = format!("{} | built by: {}", m.describe(), how);
         // ---- coap-message 0.2
         rep.eval();
         let res = guard(|| {
